@@ -252,14 +252,7 @@ def real_field(chk, F, ty):
         chk.undecide("rf|%s|atan2" % ty, "missing anchor")
     else:
         chk.count("RealField forwarding items")
-        Y, XX = Poly.var("a.re"), Poly.var("b.re")
-        try:
-            r = Interp(F, DOMK).call_body(body, [sp.operand("a"), sp.operand("b")])
-            want = sp.spec_of_real(apply_fn("atan", Y * XX.recip()))
-            want["re"] = DOMK.fn2("atan2", Y, XX)
-            compare_parts(chk, "rf|%s|atan2" % ty, "RealField::atan2 is DualNum::atan2", body_loc(F, body), sp, r, want)
-        except Unsupported as ex:
-            chk.undecide("rf|%s|atan2" % ty, "unsupported: %s" % ex, body_loc(F, body))
+        c01.check_atan2(chk, F, ty, trait_body=body, names=("a", "b"), tag="rf")
     # copysign(self, sign): |self| with the sign of sign.re
     body = F.impl_item(imp, "copysign")
     if body is None:
